@@ -26,7 +26,7 @@ func init() {
 		Floor:         c08Floor,
 		MinNontrivial: 50,
 		Phases: []fw.Phase{
-			{Name: "nested", N: func(t fw.Tier) int { return pick(t, 2000, 150000) }, Run: c08Run},
+			{Name: "nested", N: func(t fw.Tier) int { return pick(t, 8000, 200000) }, Run: c08Run},
 		},
 		Witness: sqlWitness,
 	})
